@@ -9,6 +9,8 @@ simulate.py and deterministic.py) satisfies the hypotheses of `Pygom.C08.never_s
   every evaluator of the model is registered and watched                        (`extracted_watches_all`)
 * `ode` and only `ode` is the master canary                                     (`extracted_master_is_ode`)
 * it is the variant the driver and `Pygom.C08.never_stale_source` use           (`extracted_eq_source`)
+* `CompileCanary.trip()` rebinds `self._states` (one flag dict per canary object, not the class-level one shared by
+  every model instance)                                                          (`extracted_store_eq_source`)
 
 hence `never_stale_extracted`: C08 for the source as its text reads now, every history, every evaluator.
 A mutator that forgets `trip()`, an evaluator missing from the flag list, a second master: one of these
@@ -66,6 +68,23 @@ theorem never_stale_extracted {V} (sem : Sem V) (d0 : ModelDef) (pv0 : List Rat)
     ∀ o ∈ run extractedCfg (cinit extractedCfg d0 pv0) ops,
       o.value sem = freshValue extractedCfg sem o.cur o.pvals o.ev o.x o.t :=
   never_stale _ extracted_good sem d0 pv0 ops (evalsWatched_extracted ops)
+
+/-- **where the flags live, as the text of compile_canary.py reads now**: `trip()` rebinds `self._states` and `__init__`
+calls `trip()`, so every canary object owns its dict - the configuration `sourceShared` (= per-instance stores) that the
+driver runs and `two_instance_noninterference` needs.  A `trip()` that updates the class-level dict in place makes this
+theorem fail to check. -/
+theorem extracted_store_eq_source : extractedSharedStore = sourceShared := by decide
+
+theorem extracted_store_per_instance : extractedSharedStore = false := by decide
+
+/-- **C08 for two live instances, for the source as its text reads now**: every interleaving of operations addressed to
+either instance, every evaluator, every semantics of compile-and-call. -/
+theorem never_stale_pair_extracted {V} (sem : Sem V) (dA dB : ModelDef) (pvA pvB : List Rat) (ops : List (Who × Op)) :
+    ∀ wo ∈ prun extractedCfg extractedSharedStore (pinit extractedCfg dA pvA dB pvB) ops,
+      wo.2.value sem = freshValue extractedCfg sem wo.2.cur wo.2.pvals wo.2.ev wo.2.x wo.2.t := by
+  rw [extracted_store_per_instance]
+  exact never_stale_pair extractedCfg extracted_good sem dA dB pvA pvB ops
+    (fun _ _ e _ _ _ => extracted_watches_all e)
 
 /-- non-vacuity: the extracted tables are not empty -/
 example : extractedWatched.length ≥ 12 ∧ extractedRegistered.length ≥ 12 := by decide
